@@ -322,6 +322,11 @@ pub fn c06_scenarios() -> Vec<Scenario> {
         vec![StreamSpec::new(m(&[3]), m(&[3])), StreamSpec::new(m(&[4]), m(&[4])), StreamSpec::new(m(&[]), m(&[4]))],
     ));
     v.push(mk(
+        "parked-reset-ready",
+        Cfg { s_max_concurrent: Some(1), c_initial_max_send_streams: Some(1), c_parked_reset_then_ready: true, ..Cfg::default() },
+        vec![StreamSpec { s_recv: RecvMode::Late, ..StreamSpec::new(m(&[3, 3]), m(&[3])) }],
+    ));
+    v.push(mk(
         "send-buffer-1",
         Cfg { c_max_send_buffer: Some(1), s_max_send_buffer: Some(1), ..Cfg::default() },
         vec![StreamSpec::new(MsgSpec { use_capacity: true, ..m(&[6]) }, MsgSpec { use_capacity: true, ..m(&[6]) })],
